@@ -301,6 +301,42 @@ struct S {
     snap: Snapshotter,
     log: Log<Vec<String>>,
 }
+/// two threads register the same new histogram key at the same time and record through their own handles
+fn e1_two_registrants(ctx: &Ctx, res: &mut PartResult, pb: usize) {
+    let scn = Scenario {
+        name: "2 threads each register_histogram(same new key) + record || snapshotter (1 snapshot), then a final snapshot".into(),
+        setup: Box::new(|| {
+            let rec = DebuggingRecorder::new();
+            let snap = rec.snapshotter();
+            S { rec, snap, log: Log::new() }
+        }),
+        bodies: vec![
+            body(|s: &S| s.rec.register_histogram(&mk_key(1), &META).record(1.0)),
+            body(|s: &S| s.rec.register_histogram(&mk_key(2), &META).record(2.0)),
+            body(|s: &S| {
+                s.log.push(real_snapshot(&s.snap));
+            }),
+        ],
+        check: Box::new(|s, _| {
+            s.log.push(real_snapshot(&s.snap));
+            let snaps = s.log.get();
+            let all: String = snaps.iter().flatten().filter(|l| l.starts_with("H|")).map(|l| l.split('|').nth(4).unwrap_or("").to_string()).collect::<Vec<_>>().join(" ");
+            let one = format!("{:x}", 1.0f64.to_bits());
+            let two = format!("{:x}", 2.0f64.to_bits());
+            if all.matches(&one).count() != 1 || all.matches(&two).count() != 1 {
+                return fail("histogram-value-not-in-exactly-one-snapshot", format!("two threads registered the same key and recorded 1.0 and 2.0; histogram values over the snapshots: {:?}", all));
+            }
+            let last = snaps.last().unwrap();
+            if last.iter().filter(|l| l.starts_with("H|")).count() != 1 {
+                return fail("snapshot-lists-wrong-metrics-or-order", format!("final snapshot {:?}", last));
+            }
+            Verdict::Ok(all)
+        }),
+        termination_promised: true,
+    };
+    vsched::explore(&scn, &Cfg { max_bound: pb, horizon: 20000 }, ctx, res);
+}
+
 fn e1(ctx: &Ctx, res: &mut PartResult, pb: usize) {
     let scn = Scenario {
         name: "recorder thread (histogram record(1), record(2), counter inc(3)) || snapshotter (snapshot x2), then a final snapshot".into(),
@@ -368,11 +404,13 @@ fn parts(ctx: &Ctx) -> Vec<PartSpec> {
             v.push(PartSpec::new(&format!("e3-d5-first{}", f), json!({"depth": 5, "first": f})).budget(50.0));
         }
         v.push(PartSpec::new("e1-record-vs-snapshot-pb2", json!({"e1": 2})).cpus("0"));
+        v.push(PartSpec::new("e1-two-registrants-pb2", json!({"e1": 2, "two": true})).cpus("0"));
     } else {
         for f in 0..alphabet().len() {
             v.push(PartSpec::new(&format!("e3-d6-first{}", f), json!({"depth": 6, "first": f})).budget(2400.0));
         }
         v.push(PartSpec::new("e1-record-vs-snapshot-pb4", json!({"e1": 4})).cpus("0").budget(1500.0));
+        v.push(PartSpec::new("e1-two-registrants-pb3", json!({"e1": 3, "two": true})).cpus("1").budget(1500.0));
     }
     v
 }
@@ -382,7 +420,11 @@ fn run(ctx: &Ctx, spec: &PartSpec) -> PartResult {
     if spec.arg["local"].as_bool() == Some(true) {
         local_threads(&mut res);
     } else if let Some(pb) = spec.arg["e1"].as_u64() {
-        e1(ctx, &mut res, pb as usize);
+        if spec.arg["two"].as_bool() == Some(true) {
+            e1_two_registrants(ctx, &mut res, pb as usize);
+        } else {
+            e1(ctx, &mut res, pb as usize);
+        }
     } else {
         e3(ctx, &mut res, spec.arg["depth"].as_u64().unwrap_or(4) as usize, spec.arg["first"].as_u64().map(|x| x as usize));
     }
